@@ -16,16 +16,31 @@ def call(f):
 
 
 # ------------------------------------------------------------------ subjects
+VARIANT = ["plain-first"]   # key-order variant of the subject, set per case by main()
+
+
 def base(bs, kind="regular", flatkeys=False, sep="."):
     n = 1
     for s in bs:
         n *= s
     a = torch.arange(n * 2, dtype=torch.int64).reshape(*bs, 2) + 1
     b = torch.arange(n, dtype=torch.int64).reshape(*bs) * 3 + 100
+    v = VARIANT[0]
+    if v != "plain-first":
+        # every leaf has the same shape (so a value copied onto the wrong leaf is not rejected) and distinct contents
+        a = b + 100000
     if flatkeys:
         src = {"a": a, f"n{sep}b": b, f"n{sep}m{sep}c": b + 7}
+        if v == "nested-first":
+            src = {f"n{sep}b": b, f"n{sep}m{sep}c": b + 7, "a": a}
+        elif v == "interleaved":
+            src = {f"n{sep}b": b, "a": a, f"n{sep}m{sep}c": b + 7}
     else:
         src = {"a": a, "n": {"b": b, "m": {"c": b + 7}}}
+        if v == "nested-first":
+            src = {"n": {"m": {"c": b + 7}, "b": b}, "a": a}
+        elif v == "interleaved":
+            src = {"n": {"b": b}, "a": a, "m": {"c": b + 7}}
     if kind == "lazy":
         parts = [TensorDict({k: v[i] for k, v in {"a": a, "b": b}.items()}, batch_size=list(bs[1:])) for i in range(bs[0])]
         return lazy_stack(parts, 0)
@@ -123,28 +138,31 @@ def apply_edit(y, edit, locked):
         y.set(nk, torch.ones(*y.batch_size, dtype=torch.int64) * 4)
 
 
-def expected(op, args, kwargs, bs, inv, edit, locked, flat_sep):
-    ref = base(bs, flatkeys=(op == "unflatten_keys"), sep=flat_sep)
-    y = getattr(ref, op)(*args, **kwargs)
-    y = y.clone()   # independent of ref
-    apply_edit(y, edit, False)
-    back = inv(y, list(bs))
+def expected(op, args, kwargs, bs, inv, edit, locked, flat_sep, repeat=1):
     out = base(bs, flatkeys=(op == "unflatten_keys"), sep=flat_sep)
-    out.update(back)
+    for _ in range(repeat):
+        y = getattr(out, op)(*args, **kwargs)
+        y = y.clone()   # independent of the original
+        apply_edit(y, edit, False)
+        back = inv(y, list(bs))
+        out.update(back)
     return out
 
 
-def run_impl(op, args, kwargs, bs, edit, locked, flat_sep, recorder=None):
+def run_impl(op, args, kwargs, bs, edit, locked, flat_sep, recorder=None, repeat=1, reuse_cm=False):
     orig = base(bs, flatkeys=(op == "unflatten_keys"), sep=flat_sep)
     ptrs_before = {k: v.untyped_storage().data_ptr() for k, v in orig.items(True, True)}
     if locked:
         orig.lock_()
-    with getattr(orig, op)(*args, **kwargs) as y:
-        apply_edit(y, edit, locked)
+    cm = getattr(orig, op)(*args, **kwargs) if reuse_cm else None
+    for _ in range(repeat):
+        # the same original goes through the same block again (same spelling): every block must write back
+        with (cm if reuse_cm else getattr(orig, op)(*args, **kwargs)) as y:
+            apply_edit(y, edit, locked)
+            if recorder is not None:
+                recorder.start()
         if recorder is not None:
-            recorder.start()
-    if recorder is not None:
-        recorder.stop()
+            recorder.stop()
     ptrs_after = {k: v.untyped_storage().data_ptr() for k, v in orig.items(True, True)}
     return orig, ptrs_before, ptrs_after
 
@@ -238,31 +256,42 @@ def main(R):
             for edit in EDITS:
                 if locked and edit in ("newkey", "newnested"):
                     continue    # the property promises new keys only for unlocked originals
-                cases.append((op, args, kwargs, bs, inv, locked, edit))
+                cases.append((op, args, kwargs, bs, inv, locked, edit, "plain-first", 1))
+                if edit in ("value", "none"):
+                    # key-order variants of the original (nested entry before a plain leaf; interleaved flat names) and
+                    # the same block entered twice on the same original
+                    for variant in ("nested-first", "interleaved"):
+                        cases.append((op, args, kwargs, bs, inv, locked, edit, variant, 1))
+                    if edit == "value":
+                        cases.append((op, args, kwargs, bs, inv, locked, edit, "plain-first", 2))
+                        cases.append((op, args, kwargs, bs, inv, locked, edit, "nested-first", 2))
     if R.quick:
         R.rng.shuffle(cases)
-        keep = cases[:1500]
+        keep = cases[:2200]
     else:
         keep = cases
         R.exhaustive = True
-    lines = [model_line(op, args, kwargs, bs) for (op, args, kwargs, bs, inv, locked, edit) in keep]
+    lines = [model_line(op, args, kwargs, bs) for (op, args, kwargs, bs, inv, locked, edit, variant, repeat) in keep]
     mres = R.model(lines) if ok else [None] * len(lines)
     rec = Recorder()
-    for ci, (op, args, kwargs, bs, inv, locked, edit) in enumerate(keep):
+    for ci, (op, args, kwargs, bs, inv, locked, edit, variant, repeat) in enumerate(keep):
+        VARIANT[0] = variant
         flat_sep = (args[0] if args else kwargs.get("separator", ".")) if op == "unflatten_keys" else "."
         case = {"op": op, "args": canon_val(list(args)), "kwargs": {k: canon_val(v) for k, v in kwargs.items()}, "bs": list(bs),
-                "locked": locked, "edit": edit}
+                "locked": locked, "edit": edit, "key_order": variant, "blocks": repeat}
         spelled = "kw" if kwargs and not args else ("mixed" if kwargs else "pos")
         sig = {"op": op, "spelling": spelled}
-        R.case((op, repr(args), repr(sorted(kwargs.items())), locked, edit), nontrivial=edit != "none", sample=case if ci % 97 == 0 else None)
+        R.case((op, repr(args), repr(sorted(kwargs.items())), locked, edit, variant, repeat), nontrivial=edit != "none", sample=case if ci % 97 == 0 else None)
+        R.count(f"key-order:{variant}")
+        R.count(f"blocks:{repeat}")
         R.count(f"op:{op}")
         R.count(f"spelling:{spelled}")
         R.count(f"edit:{edit}")
-        exp = call(lambda: snap(expected(op, args, kwargs, bs, inv, edit, locked, flat_sep)))
+        exp = call(lambda: snap(expected(op, args, kwargs, bs, inv, edit, locked, flat_sep, repeat)))
         if exp[0] != "ok":
             R.count("skipped:reference-raises")
             continue
-        got = call(lambda: run_impl(op, args, kwargs, bs, edit, locked, flat_sep, rec))
+        got = call(lambda: run_impl(op, args, kwargs, bs, edit, locked, flat_sep, rec, repeat))
         rec.stop()
         if got[0] != "ok":
             R.oracle_fail("writeback:raises", case, {"exception": got[1]}, dict(sig, kind="raises"))
@@ -286,8 +315,41 @@ def main(R):
             if impl_call != m and not (got[0] != "ok" and m == "raise"):
                 R.mismatch("reverse-call", case, impl_call, m)
         R.traces += 1
+    VARIANT[0] = "plain-first"
+    check_reused_cm(R, sps)
     check_other_containers(R, sps)
     check_locks_and_nesting(R)
+
+
+def check_reused_cm(R, sps):
+    """one stored context manager object entered twice in a row: both blocks must write back"""
+    for (op, args, kwargs, bs, inv) in sps:
+        if kwargs or (R.quick and R.rng.random() < 0.5):
+            continue
+        for locked in (False, True):
+            flat_sep = (args[0] if args else ".") if op == "unflatten_keys" else "."
+            case = {"op": op, "args": canon_val(list(args)), "kwargs": {}, "bs": list(bs), "locked": locked, "edit": "value",
+                    "stored_cm_entered_twice": True}
+            R.case(("reused-cm", op, repr(args), locked), nontrivial=True)
+            R.count("reused-cm")
+
+            def ref():
+                out = base(bs, flatkeys=(op == "unflatten_keys"), sep=flat_sep)
+                y = getattr(out, op)(*args).clone()
+                apply_edit(y, "value", False)
+                apply_edit(y, "value", False)
+                out.update(inv(y, list(bs)))
+                return snap(out)
+            e = call(ref)
+            if e[0] != "ok":
+                continue
+            g = call(lambda: snap(run_impl(op, args, {}, bs, "value", locked, flat_sep, None, 2, True)[0]))
+            sig = {"op": op, "kind": "reused-cm"}
+            if g[0] != "ok":
+                R.oracle_fail("writeback:raises", case, {"exception": g[1]}, sig)
+            elif g[1]["leaves"] != e[1]["leaves"]:
+                R.oracle_fail("writeback:content", case, {"differing_keys": sorted(k for k in e[1]["leaves"] if g[1]["leaves"].get(k) != e[1]["leaves"][k])[:6]}, sig)
+            R.traces += 1
 
 
 def _mk(kind, bs):
@@ -443,6 +505,7 @@ def replay(body):
         print("spelling not found")
         return 0
     op, args, kwargs, bs, inv = sp[0]
+    VARIANT[0] = c.get("key_order", "plain-first")
     flat_sep = (args[0] if args else kwargs.get("separator", ".")) if op == "unflatten_keys" else "."
     print("expected:", call(lambda: snap(expected(op, args, kwargs, bs, inv, c["edit"], c["locked"], flat_sep))))
     r = call(lambda: run_impl(op, args, kwargs, bs, c["edit"], c["locked"], flat_sep))
